@@ -146,6 +146,23 @@ mod peers {
     pub async fn append(wal: &Arc<WriteAheadLog>, id: u64, addr: SocketAddr) -> Result<()> {
         append_peer_addr_record(wal, id, addr).await
     }
+    /// the three fields of `OpenRaftNode` the peer-address method touches
+    pub struct OpenRaftNode {
+        pub peer_addrs: Arc<tokio::sync::RwLock<HashMap<u64, SocketAddr>>>,
+        pub peer_addr_wal: Arc<WriteAheadLog>,
+        pub peer_namespace: Arc<String>,
+    }
+    /// the process-wide registry is not observable across a restart: not kept
+    fn register_global_peer_addr(_namespace: &str, _node_id: u64, _addr: SocketAddr) {}
+    include!(concat!(env!("OUT_DIR"), "/node_method_slice.rs"));
+    impl OpenRaftNode {
+        pub async fn record_peer(&self, id: u64, addr: SocketAddr) -> Result<()> {
+            self.persist_peer_addr_if_needed(id, addr).await
+        }
+        pub fn snapshot(&self) -> HashMap<u64, SocketAddr> {
+            tokio::block_on(async { self.peer_addrs.read().await.clone() })
+        }
+    }
 }
 
 use raftshim::*;
@@ -171,7 +188,7 @@ struct Node {
     store: store::WalLogStore,
     log_wal: Arc<faultwal::WriteAheadLog>,
     peer_wal: Arc<faultwal::WriteAheadLog>,
-    peers: std::collections::HashMap<u64, std::net::SocketAddr>,
+    peers: peers::OpenRaftNode,
 }
 
 fn main() {
@@ -305,7 +322,12 @@ fn main() {
                         let lw = Arc::new(faultwal::WriteAheadLog::new(datadir.join("openraft_log"), 0, zero).await?);
                         let store = store::new_wal_log_store(lw.clone()).await?;
                         let peer_wal = Arc::new(faultwal::WriteAheadLog::new(datadir.join("peer_addrs"), 0, zero).await?);
-                        let peers = peers::load(&peer_wal).await;
+                        let loaded = peers::load(&peer_wal).await;
+                        let peers = peers::OpenRaftNode {
+                            peer_addrs: Arc::new(tokio::sync::RwLock::new(loaded)),
+                            peer_addr_wal: peer_wal.clone(),
+                            peer_namespace: Arc::new("verif".to_string()),
+                        };
                         Ok(Node { store, log_wal: lw, peer_wal, peers })
                     });
                     match r {
@@ -363,12 +385,9 @@ fn main() {
                     let Some(n) = node.as_mut() else { return "err:closed".into() };
                     let id: u64 = t[1].parse().unwrap();
                     let addr: std::net::SocketAddr = format!("127.0.0.1:{}", t[2]).parse().unwrap();
-                    // node.rs:150-157: a record is appended only when the address differs from what is known
-                    if n.peers.get(&id).copied() != Some(addr) {
-                        if tokio::block_on(peers::append(&n.peer_wal, id, addr)).is_err() {
-                            return "err".into();
-                        }
-                        n.peers.insert(id, addr);
+                    // OpenRaftNode::persist_peer_addr_if_needed (node.rs:324-338, sliced): what add_learner / start call
+                    if tokio::block_on(n.peers.record_peer(id, addr)).is_err() {
+                        return "err".into();
                     }
                     "ok".into()
                 }
@@ -378,7 +397,7 @@ fn main() {
                     let vote = tokio::block_on(n.store.read_vote()).unwrap();
                     let com = tokio::block_on(n.store.read_committed()).unwrap();
                     let ents = tokio::block_on(n.store.try_get_log_entries(..)).unwrap();
-                    let mut ps: Vec<_> = n.peers.iter().map(|(k, v)| (*k, v.port())).collect();
+                    let mut ps: Vec<_> = n.peers.snapshot().iter().map(|(k, v)| (*k, v.port())).collect();
                     ps.sort();
                     format!(
                         "purged={} last={} vote={} committed={} log=[{}] peers=[{}]",
